@@ -1,7 +1,7 @@
 -------------------------- MODULE OutputGateTrace --------------------------
 (* Recorded calls on real Output / SectionOutput / IO objects checked against OutputGate.
    event (every event carries every key; unused ones hold neutral values):
-     op    "new" | "quiet" | "verbosity" | "write"
+     op    "new" | "quiet" | "verbosity" | "rewire" (name: set_stream | set_formatter, g) | "write"; res on every call
      new:        kind, dec, secs (per output: is it a section output), sts (per output: index of its stream)
      quiet:      g (outputs the setter call configures), q          verbosity: g, v
      write:      role ("io"|"output"|"section"), name, o (output the call is made on; io: 1), adr (outputs the caller
@@ -29,6 +29,7 @@ Is(op) == l <= Len(T) /\ Ev.op = op
 SetOf(seq) == {seq[k] : k \in DOMAIN seq}
 
 TNew == /\ Is("new") /\ Adv
+        /\ Check(tid, l, "P.route.exists", Ev.kind \o ":" \o Ev.res, Ev.res = "ok")   \* every object of the family can be built
         /\ Check(tid, l, "H.new", "", Len(Ev.secs) = Len(Ev.sts) /\ \A k \in DOMAIN Ev.sts : Ev.sts[k] \in Streams)
         /\ obj' = [kind |-> Ev.kind, dec |-> Ev.dec]
         /\ outs' = [k \in 1..Len(Ev.secs) |-> Out(Ev.secs[k], Ev.sts[k])]
@@ -36,10 +37,19 @@ TNew == /\ Is("new") /\ Adv
 
 TQuiet == /\ Is("quiet") /\ Adv /\ UNCHANGED mute
           /\ Check(tid, l, "H.group", "", SetOf(Ev.g) \subseteq DOMAIN outs)
+          /\ Check(tid, l, "P.config.settable", "set_quiet", Ev.res = "ok")      \* every configuration can be set
           /\ SetQuiet(SetOf(Ev.g), Ev.q)
 TVerbosity == /\ Is("verbosity") /\ Adv /\ UNCHANGED mute
               /\ Check(tid, l, "H.group", "", SetOf(Ev.g) \subseteq DOMAIN outs /\ Ev.v \in Levels)
+              /\ Check(tid, l, "P.config.settable", "set_verbosity", Ev.res = "ok")
               /\ SetVerbosity(SetOf(Ev.g), Ev.v)
+
+\* set_stream / set_formatter after construction: no clause of its own - the calls that follow are held to the
+\* configuration set before
+TRewire == /\ Is("rewire") /\ Adv /\ UNCHANGED mute
+           /\ Check(tid, l, "H.group", "", SetOf(Ev.g) \subseteq DOMAIN outs)
+           /\ Check(tid, l, "P.config.settable", Ev.name, Ev.res = "ok")
+           /\ Rewire(SetOf(Ev.g))
 
 Mode == IF obj.dec THEN "/ansi" ELSE "/plain"
 KeyOf(e) == e.role \o "." \o e.name \o Mode
@@ -77,6 +87,6 @@ TWrite ==
 
 TDone == /\ l = Len(T) + 1 /\ l' = l + 1 /\ tid' = tid /\ UNCHANGED <<vars, mute>> /\ Accept(tid)
 
-TNext == TNew \/ TQuiet \/ TVerbosity \/ TWrite \/ TDone
+TNext == TNew \/ TQuiet \/ TVerbosity \/ TRewire \/ TWrite \/ TDone
 TSpec == TInit /\ [][TNext]_tvars
 =============================================================================
